@@ -8,6 +8,7 @@ From Coq Require Import ZArith List Bool String Arith Lia.
 From TE Require Import Base.Val Models.Proto Models.Synclib Proofs.ProtoP Proofs.SynclibP.
 Import ListNotations.
 Open Scope string_scope.
+Open Scope list_scope.
 
 (* ---- 0. the runner used by the harness (with trace) computes the runner of the theorems ---- *)
 Theorem traced_runner_agrees :
@@ -60,6 +61,102 @@ Example send_dst_example :
   run_all (respond [0;1;2]) (map (fun i => send_tensors (Some 1) i (ex_ts i)) (seq 0 3))
   = Some [Ok None; Ok (Some (map ex_ts (seq 0 3))); Ok None].
 Proof. vm_compute. reflexivity. Qed.
+
+(* ---- 4. _sync_obj_states ---- *)
+Theorem obj_sync_lossless :
+  forall (g : list nat) (dst : option nat) (Wg : nat) (vs : nat -> val),
+    let n := List.length g in
+    n > 0 -> dst_ok g dst ->
+    run_all (respond g) (map (fun i => sync_obj dst i Wg (vs i)) (seq 0 n))
+    = Some (map (fun i => Ok (if receives dst i then pad_slots Wg (map (fun j => GO (vs j)) (seq 0 n))
+                              else untouched Wg)) (seq 0 n)).
+Proof. exact SynclibP.obj_sync_lossless. Qed.
+
+(* ---- 5. _sync_list_tensor_states: lists of different lengths (dummy tensors on short ranks), empty
+   lists on some ranks (dtype/shape broadcast; only on the world group, see subgroup_root_refuted),
+   not all lists empty (see list_all_empty_refuted) ---- *)
+Theorem list_sync_lossless :
+  forall (g : list nat) (dst : option nat) (Wg : nat) (xss : nat -> list tensor) (d : nat) (z : Z),
+    let n := List.length g in
+    n > 0 -> n <= Wg -> dst_ok g dst ->
+    (forall i, i < n -> forall t, In t (xss i) -> tens_ok d z t) ->
+    (exists i, i < n /\ xss i <> []) ->
+    ((exists i, i < n /\ xss i = []) -> g = seq 0 n) ->
+    run_all (respond g) (map (fun i => sync_list dst i Wg (xss i)) (seq 0 n))
+    = Some (map (fun i => Ok (if receives dst i then pad_slots Wg (map (fun j => GL (xss j)) (seq 0 n))
+                              else untouched Wg)) (seq 0 n)).
+Proof. exact SynclibP.list_sync_lossless. Qed.
+
+(* ---- 6. _sync_dict_tensor_states when all ranks hold the same key set ---- *)
+Theorem dict_sync_lossless_same_keys :
+  forall (g : list nat) (dst : option nat) (Wg : nat) (kvs : nat -> list (string * tensor))
+         (ks : list string) (d : nat) (z : Z),
+    let n := List.length g in
+    n > 0 -> n <= Wg -> dst_ok g dst -> ks <> [] ->
+    (forall i, i < n -> map fst (sort_keys (kvs i)) = ks) ->
+    (forall i, i < n -> forall kt, In kt (kvs i) -> tens_ok d z (snd kt)) ->
+    run_all (respond g) (map (fun i => sync_dict dst i Wg (kvs i)) (seq 0 n))
+    = Some (map (fun i => Ok (if receives dst i
+                              then map (fun j => GD (sort_keys (kvs j))) (seq 0 n) ++ repeat (GD []) (Wg - n)
+                              else untouched Wg)) (seq 0 n)).
+Proof. exact SynclibP.dict_sync_lossless_same_keys. Qed.
+
+(* ---- 7. sync_states over a mixed collection: every (metric, state) key of the traversal order is
+   addressed to the right slot of the right rank.  [ideal_family g dst Wg ss iv tl]: the sync of
+   the per-rank states [ss] delivers [iv j] for rank j (slots of ranks outside the group: [tl]);
+   it holds for tensor / object / list / dict states under the hypotheses of 2, 4, 5, 6. ---- *)
+Theorem ideal_family_instances :
+  forall (g : list nat) (dst : option nat) (Wg : nat) (d : nat) (z : Z),
+    let n := List.length g in
+    n > 0 -> n <= Wg -> dst_ok g dst ->
+    (forall ts, (forall i, i < n -> tens_ok d z (ts i)) ->
+       ideal_family g dst Wg (fun i => STensor (ts i)) (fun j => GT (ts j)) GEmpty) /\
+    (forall vs, ideal_family g dst Wg (fun i => SObj (vs i)) (fun j => GO (vs j)) GEmpty) /\
+    (forall xss, (forall i, i < n -> forall t, In t (xss i) -> tens_ok d z t) ->
+       (exists i, i < n /\ xss i <> []) -> ((exists i, i < n /\ xss i = []) -> g = seq 0 n) ->
+       ideal_family g dst Wg (fun i => SList (xss i)) (fun j => GL (xss j)) GEmpty) /\
+    (forall kvs ks, ks <> [] -> (forall i, i < n -> map fst (sort_keys (kvs i)) = ks) ->
+       (forall i, i < n -> forall kt, In kt (kvs i) -> tens_ok d z (snd kt)) ->
+       ideal_family g dst Wg (fun i => SDict (kvs i)) (fun j => GD (sort_keys (kvs j))) (GD [])).
+Proof.
+  intros g dst Wg d z n Hn HW Hok. repeat split.
+  - intros ts Ht. exact (ideal_tensor g dst Wg ts d z Hn Hok Ht).
+  - intros vs. exact (ideal_obj g dst Wg vs Hn Hok).
+  - intros xss H1 H2 H3. exact (ideal_list g dst Wg xss d z Hn HW Hok H1 H2 H3).
+  - intros kvs ks H1 H2 H3. exact (ideal_dict g dst Wg kvs ks d z Hn HW Hok H1 H2 H3).
+Qed.
+
+Theorem mixed_collection_addressing :
+  forall (g : list nat) (dst : option nat) (Wg : nat) (mds : nat -> mdict) (order : list key)
+         (iv : key -> nat -> gs) (tl : key -> gs),
+    let n := List.length g in
+    n <= Wg ->
+    (forall k, In k order -> exists ss, (forall i, i < n -> lookup2 (mds i) k = Some (ss i)) /\
+                                        ideal_family g dst Wg ss (iv k) (tl k)) ->
+    exists gath,
+      run_all (respond g) (map (fun i => sync_states dst i Wg (mds i) order) (seq 0 n))
+      = Some (map (fun i => Ok (if receives dst i then Some gath else None)) (seq 0 n)) /\
+      List.length gath = Wg /\
+      (forall j k, j < n -> In k order -> get_key k (nth j gath []) = Some (iv k j)) /\
+      (forall j k, n <= j < Wg -> In k order -> get_key k (nth j gath []) = Some (tl k)).
+Proof. exact SynclibP.mixed_collection_addressing. Qed.
+
+(* non-vacuity: three ranks, two metrics with a tensor, an object, a list (one rank empty, uneven
+   lengths) and a dict state; rank 1 receives *)
+Definition ex_md (i : nat) : mdict :=
+  [("b", [("t", STensor (ex_ts i)); ("o", SObj (VZ (Z.of_nat i)))]);
+   ("a", [("l", SList (nth i [[ex_ts 0; ex_ts 2]; []; [ex_ts 1]] []));
+          ("d", SDict [("y", ex_ts i); ("x", ex_ts (2 - i))])])].
+Example mixed_example :
+  traversal (ex_md 0) = [("a","d"); ("a","l"); ("b","o"); ("b","t")] /\
+  exists gath,
+    run_all (respond [0;1;2]) (map (fun i => sync_states (Some 1) i 3 (ex_md i) (traversal (ex_md i))) (seq 0 3))
+    = Some [Ok None; Ok (Some gath); Ok None] /\
+    map (get_key ("b","t")) gath = map (fun j => Some (GT (ex_ts j))) (seq 0 3) /\
+    map (get_key ("b","o")) gath = map (fun j => Some (GO (VZ (Z.of_nat j)))) (seq 0 3) /\
+    map (get_key ("a","l")) gath = [Some (GL [ex_ts 0; ex_ts 2]); Some (GL []); Some (GL [ex_ts 1])] /\
+    map (get_key ("a","d")) gath = map (fun j => Some (GD [("x", ex_ts (2 - j)); ("y", ex_ts j)])) (seq 0 3).
+Proof. split; [reflexivity|]. eexists. split; [vm_compute; reflexivity|]. repeat split. Qed.
 
 (* ---- 8. refuted statements (the model is faithful to the code as it is) ---- *)
 Definition sc (z : Z) : tensor := mkT 0 [] (TSc (VZ z)).
@@ -114,6 +211,11 @@ Print Assumptions traced_runner_agrees.
 Print Assumptions pad_slice_roundtrip.
 Print Assumptions send_tensors_lossless.
 Print Assumptions dst_only_receives.
+Print Assumptions obj_sync_lossless.
+Print Assumptions list_sync_lossless.
+Print Assumptions dict_sync_lossless_same_keys.
+Print Assumptions ideal_family_instances.
+Print Assumptions mixed_collection_addressing.
 Print Assumptions list_all_empty_refuted.
 Print Assumptions dict_unequal_keys_refuted.
 Print Assumptions subgroup_root_refuted.
